@@ -1400,3 +1400,19 @@ def gen_site_radius():
     ok, log = compile_gen('SiteRadius.v')
     return ('siteradius: _compute_site_radius (2 x vibration amplitude, shrunk to half the smallest site distance minus 0.005 when spheres would overlap, '
             'rejection below 0.25 A) regenerated; proved: twice the radius never exceeds the smallest site distance', ok, 'ok' if ok else log[-600:])
+
+
+# ---------------------------------------------------------------- unit: composition events -> jumps (C03 + C04)
+def gen_pipeline():
+    """Needs Gen/Events.vo and Gen/JumpStep.vo of this run.  The proof text is static (harness/pipeline_proof.v.txt); what it proves is about
+    the definitions generated in this run: gen_scan 0 (gen_events_atom a o o) = default_jumps a o, and the subset property for stricter settings."""
+    os.makedirs(GEN, exist_ok=True)
+    e = gen_events()
+    if not e[1]:
+        return ('pipeline', False, 'needs the events unit: ' + e[2])
+    src = open(os.path.join(_V, 'harness', 'pipeline_proof.v.txt')).read()
+    open(os.path.join(GEN, 'Pipeline.v'), 'w').write(src)
+    ok, log = compile_gen('Pipeline.v')
+    closed = log.count('Closed under the global context') == 2
+    return ('pipeline: generated jump scan applied to the generated event extraction = consecutive distinct visited sites (default settings), and a subset of them '
+            'for stricter settings (gen_pipeline_default, gen_pipeline_strict; closed under the global context)', ok and closed, 'ok' if ok and closed else log[-600:])
